@@ -25,7 +25,7 @@ def _v10(ctx) -> None:
 
 
 def run(ctx) -> None:
-    for name, fn in (("D1", presence.rule_D1), ("D2", presence.rule_D2), ("D3", presence.rule_D3), ("D4", presence.rule_D4), ("D5", presence.rule_D5), ("T5", codec.rule_T5), ("V7", presence.rule_V7), ("D6", presence.rule_D6), ("D7", presence.rule_D7), ("D8", presence.rule_D8), ("O2", presence.rule_O2), ("U2b", _u2b), ("V10", _v10)):
+    for name, fn in (("D1", presence.rule_D1), ("D2", presence.rule_D2), ("D3", presence.rule_D3), ("D4", presence.rule_D4), ("D5", presence.rule_D5), ("T5", codec.rule_T5), ("V7", presence.rule_V7), ("D6", presence.rule_D6), ("D7", presence.rule_D7), ("D8", presence.rule_D8), ("D9", presence.rule_D9), ("O2", presence.rule_O2), ("U2b", _u2b), ("V10", _v10)):
         ctx.rules_run.append(name)
         fn(ctx)
     from . import jsonrules
